@@ -49,11 +49,15 @@ var concTemplates = map[string]string{
 	"g_expr.js":     `{{ "a#{x}#{gate(r)}b#{y}" }}{{ (x ~ gate(r) ~ y)|escape('url') }}{{ gate(r) ? x : y }}{{ [x, gate(r), y]|length }}{{ x matches '^<' ~ gate(r) }}`,
 	"g_import.html": `{% import 'f' as lib %}{% from 'f' import m %}{{ lib.m(x) }}{{ gate(r) }}{{ m(y) }}{{ x }}`,
 	"g_use.css":     `{% use 'a.html' %}{{ gate(r) }}{{ block('b') }}{{ x }}`,
+	// the callers' own objects: a struct passed by value and by pointer, a method with a pointer receiver that is held at the
+	// barrier while the other callers look up theirs
+	"g_obj.html": `{{ o.Held(r) }}|{{ o.Who }}|{{ p.Held(r) }}|{{ o.ID }}|{{ o.Twice(x) }}|{{ l[0].Who }}|{{ mp.k.Who }}`,
+	"o.html":     `{{ o.Who }}|{{ o.ID }}|{{ p.Who }}|{{ o.Twice(y) }}{% for e in l %}{{ e.Who }}{{ e.Val }}{% endfor %}|{{ mp.k.Who }}{{ o.Val }}`,
 	"i.html": `{% use 'a.html' %}{% import 'f' as lib %}{{ lib.m(n) }}{{ block('b') }}{% filter upper %}{{ n }}{% endfilter %}{% verbatim %}{{ v }}{% endverbatim %}`,
 }
 
-var concGated = []string{"j.html", "g_for.html", "g_block.html", "g_macro.html", "g_embed.html", "g_filter.html", "g_expr.js", "g_import.html", "g_use.css"}
-var concNames = []string{"a.html", "b.js", "c.css", "d.txt", "e.html", "f", "bad.html", "g.js.twig", "h.html", "i.html", "u.html", "m.html"}
+var concGated = []string{"j.html", "g_for.html", "g_block.html", "g_macro.html", "g_embed.html", "g_filter.html", "g_expr.js", "g_import.html", "g_use.css", "g_obj.html"}
+var concNames = []string{"a.html", "b.js", "c.css", "d.txt", "e.html", "f", "bad.html", "g.js.twig", "h.html", "i.html", "u.html", "m.html", "o.html"}
 
 // barrier: a blocking user function used as a scheduler gate - gate(r) returns when all n callers of round r have
 // arrived (or after a time-out, so that a caller that failed early cannot block the others for ever).
@@ -85,6 +89,22 @@ func (b *barrier) wait(r int) {
 	}
 }
 
+// concObj: what a caller passes in its context by value, by pointer, in a list and in a map
+type concObj struct {
+	ID  string
+	bar *barrier
+}
+
+func (o *concObj) Who() string { return o.ID }
+func (o *concObj) Held(r float64) string {
+	if o.bar != nil {
+		o.bar.wait(1000 + int(r))
+	}
+	return o.ID
+}
+func (o *concObj) Twice(s string) string { return o.ID + s + o.ID }
+func (o concObj) Val() string            { return "v" + o.ID }
+
 type concResult struct {
 	G     int    `json:"g"`
 	Round int    `json:"round"`
@@ -94,8 +114,11 @@ type concResult struct {
 	Out   Bytes  `json:"out"`
 }
 
-func concCall(env *stick.Env, tpl, api string, g, round int) concResult {
-	ctx := map[string]stick.Value{"x": fmt.Sprintf("<%d&'\">", g), "y": fmt.Sprintf("%d/*%d*/", round%3, g%4),
+func concCall(env *stick.Env, bar *barrier, tpl, api string, g, round int) concResult {
+	ob := concObj{ID: fmt.Sprintf("o%d.%d", g, round), bar: bar}
+	ctx := map[string]stick.Value{"o": ob, "p": &concObj{ID: fmt.Sprintf("p%d.%d", g, round), bar: bar},
+		"l": []concObj{{ID: fmt.Sprintf("l%d.%d", g, round)}}, "mp": map[string]concObj{"k": {ID: fmt.Sprintf("m%d.%d", g, round)}},
+		"x": fmt.Sprintf("<%d&'\">", g), "y": fmt.Sprintf("%d/*%d*/", round%3, g%4),
 		"n": float64(round%7 + 1), "pat": fmt.Sprintf("^<%d.*r%d", g, round), "r": float64(round)}
 	res := concResult{G: g, Round: round, Tpl: tpl, API: api}
 	if api == "parse" {
@@ -162,7 +185,7 @@ func init() {
 			}
 			loader = stick.NewFilesystemLoader(dir)
 		}
-		mk := func(n int) *stick.Env {
+		mk := func(n int) (*stick.Env, *barrier) {
 			bar := &barrier{n: n}
 			sharedList := append(make([]stick.Value, 0, 16), "home", "blog", "about")
 			sharedMap := map[string]stick.Value{"k": "K", "j": "J"}
@@ -183,13 +206,13 @@ func init() {
 					return strings.ToUpper(stick.CoerceString(v))
 				}
 				e.Filters["raw"] = func(ctx stick.Context, v stick.Value, a ...stick.Value) stick.Value { return v }
-				return e
+				return e, bar
 			}
 			e := twig.New(loader)
 			e.Functions["gate"] = gate
 			e.Functions["shared"] = shared
 			e.Functions["sharedmap"] = sharedmap
-			return e
+			return e, bar
 		}
 		pick := func(g, r int) (string, string) {
 			if c.Gate {
@@ -205,7 +228,7 @@ func init() {
 		before, _ := raceReports()
 		// 1. the calls from N goroutines on one shared environment - FIRST, so that nothing the library keeps between
 		//    calls (caches, pools) has been warmed up by a sequential run
-		env := mk(c.N)
+		env, bar := mk(c.N)
 		results := make([][]concResult, c.N)
 		var wg sync.WaitGroup
 		start := make(chan struct{})
@@ -216,7 +239,7 @@ func init() {
 				<-start
 				for r := 0; r < c.Rounds; r++ {
 					tpl, api := pick(g, r)
-					results[g] = append(results[g], concCall(env, tpl, api, g, r))
+					results[g] = append(results[g], concCall(env, bar, tpl, api, g, r))
 				}
 			}(g)
 		}
@@ -225,11 +248,11 @@ func init() {
 		// 2. every call alone, on another environment: the sequential results
 		alone := map[string]concResult{}
 		key := func(r concResult) string { return fmt.Sprintf("%d/%d", r.G, r.Round) }
-		seqEnv := mk(1)
+		seqEnv, seqBar := mk(1)
 		for g := 0; g < c.N; g++ {
 			for r := 0; r < c.Rounds; r++ {
 				tpl, api := pick(g, r)
-				res := concCall(seqEnv, tpl, api, g, r)
+				res := concCall(seqEnv, seqBar, tpl, api, g, r)
 				alone[key(res)] = res
 			}
 		}
